@@ -64,25 +64,57 @@ Qed.
 
 Definition min_ok (page psm : Z) := min_stack_size psm mod page = 0.
 
+(* the guard of commit 4452eb2, as arithmetic: refused exactly within a page of 2^64 *)
+Lemma stack_guard page s : (s >? max64 - (page - 1)) = (two64 - page <? s).
+Proof. unfold max64. destruct (s >? _) eqn:A, (_ <? s) eqn:B; lia. Qed.
+
 Theorem stack_at_least_requested page k psm rl s :
   page = 2 ^ k -> 0 <= k -> 0 < s <= two64 - page ->
-  let r := stack_size_applied page psm rl true s in
+  exists r, stack_size_applied page psm rl true s = Some r /\
   s <= r /\ min_stack_size psm <= r /\
   (r mod page = 0 \/ r = min_stack_size psm) /\
   (min_ok page psm -> r mod page = 0) /\
   (r < s + page \/ r = min_stack_size psm).
 Proof.
-  intros Hp Hk Hs. cbv zeta. unfold stack_size_applied.
+  intros Hp Hk Hs. unfold stack_size_applied.
   assert (Hs0 : (s =? 0) = false) by lia. rewrite Hs0.
+  rewrite stack_guard. assert (G : (two64 - page <? s) = false) by lia. rewrite G.
   destruct (round_up_page_spec page k s Hp Hk Hs) as (A & B & C).
-  destruct (round_up_page page s <? min_stack_size psm) eqn:E.
+  destruct (round_up_page page s <? min_stack_size psm) eqn:E; eexists; (split; [reflexivity|]).
   - unfold min_ok. repeat split; try lia; auto.
   - repeat split; try lia; auto.
 Qed.
 
+(* requests within a page of 2^64 are refused: UV_EINVAL, nothing set up *)
+Theorem stack_near_max_rejected page psm rl s :
+  two64 - page < s -> 0 < s -> stack_size_applied page psm rl true s = None.
+Proof.
+  intros H H0. unfold stack_size_applied.
+  assert (Hs0 : (s =? 0) = false) by lia. rewrite Hs0.
+  rewrite stack_guard. assert (G : (two64 - page <? s) = true) by lia. rewrite G. reflexivity.
+Qed.
+
+(* The full clause, for EVERY request 0 < s < 2^64: whenever uv_thread_create_ex gets as far
+   as creating a thread (it can only return 0 then), the size handed to
+   pthread_attr_setstacksize is >= the request (and >= the minimum, page-aligned); and it
+   refuses (None = UV_EINVAL) exactly the requests that no rounding can satisfy. *)
+Theorem stack_never_smaller page k psm rl s :
+  page = 2 ^ k -> 0 <= k -> 0 < s < two64 ->
+  match stack_size_applied page psm rl true s with
+  | Some r => s <= r /\ min_stack_size psm <= r /\ (r mod page = 0 \/ r = min_stack_size psm)
+  | None => two64 - page < s
+  end.
+Proof.
+  intros Hp Hk Hs.
+  destruct (Z_le_gt_dec s (two64 - page)) as [Hle|Hgt].
+  - destruct (stack_at_least_requested page k psm rl s Hp Hk) as (r & E & A & B & C & _ & D); [lia|].
+    rewrite E. repeat split; auto.
+  - rewrite stack_near_max_rejected by lia. lia.
+Qed.
+
 Theorem stack_zero_gives_default page psm rl flag s :
   (flag = false \/ s = 0) ->
-  stack_size_applied page psm rl flag s = thread_stack_size page psm rl.
+  stack_size_applied page psm rl flag s = Some (thread_stack_size page psm rl).
 Proof. intros [-> | ->]; unfold stack_size_applied; [reflexivity | destruct flag; reflexivity]. Qed.
 
 (* uv__thread_stack_size: the glibc default, or the soft limit rounded down to a page,
@@ -101,32 +133,17 @@ Proof.
   rewrite Zminus_mod, Z.mod_mod, Z.sub_diag by lia. apply Z.mod_0_l; lia.
 Qed.
 
-(* the full clause and its refutation within a page of 2^64 *)
-Definition stack_ok (page psm : Z) (rl : rlim) (s : Z) : Prop :=
-  s <= stack_size_applied page psm rl true s.
+(* The old failing input (DESIGN item 16, fixed by commit 4452eb2) on the repaired model:
+   SIZE_MAX is refused; the code without the guard answered it with the 16 KiB minimum. *)
+Example stack_wrap_fixed_example :
+  stack_size_applied 4096 16384 (RlCur 8388608) true (two64 - 1) = None /\
+  stack_size_applied 4096 16384 (RlCur 8388608) true (two64 - 4095) = None /\
+  stack_size_applied 4096 16384 (RlCur 8388608) true (two64 - 4096) = Some (two64 - 4096) /\
+  stack_size_applied 4096 16384 (RlCur 8388608) true (two64 - 4097) = Some (two64 - 4096) /\
+  stack_size_applied_unguarded 4096 16384 (two64 - 1) = 16384.
+Proof. vm_compute. auto. Qed.
 
-Theorem stack_wrap_refuted :
-  exists s, 0 < s < two64 /\ ~ stack_ok 4096 16384 (RlCur 8388608) s.
-Proof. exists (two64 - 1). split; [unfold two64; lia|]. unfold stack_ok. vm_compute. intros H; apply H; reflexivity. Qed.
-
-(* every request within a page of 2^64 is answered with a smaller stack *)
-Theorem stack_wrap_all page k psm rl s :
-  page = 2 ^ k -> 0 <= k -> 0 < psm < two64 - page -> page < two64 - 8192 ->
-  two64 - page < s < two64 -> ~ stack_ok page psm rl s.
-Proof.
-  intros Hp Hk Hpsm Hpg Hs. unfold stack_ok, stack_size_applied.
-  assert (Hs0 : (s =? 0) = false) by lia. rewrite Hs0.
-  rewrite (round_up_page_arith page k s Hp Hk) by lia. cbv zeta.
-  assert (0 < page) by (subst; apply Z.pow_pos_nonneg; lia).
-  assert (W : wrap64 (s + page - 1) = s + page - 1 - two64).
-  { unfold wrap64. symmetry. apply (Z.mod_unique _ _ 1); lia. }
-  rewrite W.
-  assert (Hm := Z.mod_pos_bound (s + page - 1 - two64) page H).
-  assert (Hmin : min_stack_size psm < two64 - page) by (unfold min_stack_size; destruct (8192 <? psm); lia).
-  destruct (_ <? min_stack_size psm); lia.
-Qed.
-
-Example stack_example : stack_size_applied 4096 16384 (RlCur 8388608) true 1048577 = 1052672.
+Example stack_example : stack_size_applied 4096 16384 (RlCur 8388608) true 1048577 = Some 1052672.
 Proof. reflexivity. Qed.
 
 (* ------------------------------------------------------------------ *)
